@@ -54,7 +54,15 @@ def build(case):
         if case["extracol"]:
             ecols.append("wat")
             erow.append("x")
-        sheets.append({"name": "entities", "header": ecols, "rows": [list(erow) for _ in range(case["nrows"])]})
+        if case["nrows"] == 3:
+            # two rows: the declaration proper, and a second, non-empty row that has no dataset name
+            if "label" not in ecols:
+                ecols.append("label")
+                erow.append(None)
+            second = [None] + ["'second row'" if c == "label" else v for c, v in zip(ecols[1:], erow[1:])]
+            sheets.append({"name": "entities", "header": ecols, "rows": [list(erow), second]})
+        else:
+            sheets.append({"name": "entities", "header": ecols, "rows": [list(erow) for _ in range(case["nrows"])]})
     if case.get("nsset"):
         sheets.append({"name": "settings", "header": ["namespaces", "attribute::cx:marker"], "rows": [['cx="http://example.com/cx" cy="http://example.com/cy"', "m"]]})
     idn = norm_src_expr(expr["id"])
